@@ -687,10 +687,16 @@ func gen(t *rapid.T) Case {
 	case 2, 3:
 		s, enc := formSchema(t)
 		v := formValue(t, s)
+		mode := rapid.SampledFrom([]string{"form", "multipart"}).Draw(t, "family")
+		if mode == "multipart" && rapid.IntRange(0, 2).Draw(t, "matrix") == 0 {
+			// a list of lists: every part is one row, also when there is only one
+			s["properties"].(M)["m"] = M{"type": "array", "items": M{"type": "array", "items": M{"type": "integer"}, "maxItems": 2.0}, "maxItems": 2.0}
+			rows := rapid.SampledFrom([]string{`[[1,2]]`, `[[1]]`, `[[1,2],[3]]`, `[[]]`, `[[1,2,3]]`, `[[1],[2],[3]]`, `[[1,"x"]]`}).Draw(t, "rows")
+			v.(M)["m"] = jv.Parse(rows)
+		}
 		if rapid.IntRange(0, 2).Draw(t, "composed") == 0 {
 			s = composeForm(t, s)
 		}
-		mode := rapid.SampledFrom([]string{"form", "multipart"}).Draw(t, "family")
 		c := Case{Mode: mode, Schema: jv.Canon(s), Value: jv.Canon(v), NoRO: rapid.Bool().Draw(t, "noro"), Defaults: rapid.Bool().Draw(t, "defaults")}
 		if len(enc) > 0 && mode == "form" {
 			c.Encoding = jv.Canon(enc)
